@@ -15,7 +15,7 @@ func init() {
 		Title:     "Names from clients never reach files outside their configured directories",
 		Technique: "whole-program provenance of path arguments to file-system sinks (flow-insensitive closure over assignments, parameters via the call graph, returns and field stores), must-facts for the validators",
 		Decides: "R19.1: for every call in the server packages to a path-taking function of os / path/filepath (and os.OpenRoot), every leaf of the path argument's provenance is a constant, a configured directory or file name, a name handed out by the file system itself (temp files, directory walks), a validated group name, or the rooted-clean idiom path.Clean(\"/\"+x); anything else (request fields, message fields) is reported with the sink and the leaf. " +
-			"R19.2: a Group's name is stored only after validGroupName accepted it; validGroupName rejects backslashes and the platform separator and then requires path.Clean(\"/\"+name) == \"/\"+name and != \"/\"; validUsername is the same rule or empty, and every successful return of Description.GetPermission (password or token login) is dominated by validUsername of the name returned. " +
+			"R19.2: a Group's name is stored only after validGroupName accepted it; validGroupName accepts a name only where it contains no backslash (the platform separator is '/' or '\\\\' in every build Go supports: covered by this and the next clause) and path.Clean(\"/\"+name) == \"/\"+name and != \"/\"; validUsername is the same rule or empty, and every successful return of Description.GetPermission (password or token login) is dominated by validUsername of the name returned. " +
 			"R19.3: static files, recordings and disk writes go through *os.Root methods on roots opened on configured directories; the recordings delete action refuses names containing a separator; recording file names are built from the clock, the sanitised username and the extension only, and sanitise replaces both separators.",
 		NotDecided: []string{
 			"that parseGroupName accepts only names validGroupName accepts (an agreement of two functions over all strings)",
